@@ -476,6 +476,14 @@ type FunctionLiteral struct {
 }
 
 func (fl FunctionLiteral) lambdaPrint(out *PrintState) *PrintState {
+	// A lambda used as an operand of a tighter binding operator (a + (x => x)) must keep its parentheses:
+	// a + x => x would make a + x the parameter list.
+	oldPrecedence := out.ExpressionPrecedence
+	wrap := oldPrecedence > LAMBDA
+	if wrap {
+		out.Print("(")
+		out.ExpressionPrecedence = LOWEST
+	}
 	needParen := len(fl.Parameters) != 1
 	if needParen {
 		out.Print("(")
@@ -490,6 +498,10 @@ func (fl FunctionLiteral) lambdaPrint(out *PrintState) *PrintState {
 		out.Print(" => ")
 	}
 	fl.Body.PrettyPrint(out)
+	if wrap {
+		out.Print(")")
+		out.ExpressionPrecedence = oldPrecedence
+	}
 	return out
 }
 
@@ -520,9 +532,14 @@ type CallExpression struct {
 }
 
 func (ce CallExpression) PrettyPrint(out *PrintState) *PrintState {
+	oldExpressionPrecedence := out.ExpressionPrecedence
+	// The callee binds tighter than any operator: (a || b)(x) must keep its parentheses
+	// (a function literal called in place is delimited by its body).
+	if _, isFunc := ce.Function.(*FunctionLiteral); !isFunc {
+		out.ExpressionPrecedence = CALL
+	}
 	ce.Function.PrettyPrint(out)
 	out.Print("(")
-	oldExpressionPrecedence := out.ExpressionPrecedence
 	out.ExpressionPrecedence = LOWEST
 	out.ComaList(ce.Arguments)
 	out.ExpressionPrecedence = oldExpressionPrecedence
